@@ -8,6 +8,7 @@ import (
 	"go/token"
 	"go/types"
 	"math/big"
+	"regexp"
 	"sort"
 	"strings"
 
@@ -40,6 +41,8 @@ type modLoc struct {
 	name string // ghost name
 	idx  *Term
 	typ  types.Type
+	lo   *Term // mem: index window [lo, hi) in backing-array coordinates
+	hi   *Term
 }
 
 type State struct {
@@ -69,6 +72,17 @@ func (s *State) clone() *State {
 func (s *State) assume(t *Term) {
 	if t.IsTrue() {
 		return
+	}
+	if t.Op == "and" {
+		for _, a := range t.Args {
+			s.assume(a)
+		}
+		return
+	}
+	for i := len(s.pc) - 1; i >= 0 && i >= len(s.pc)-400; i-- {
+		if s.pc[i] == t {
+			return
+		}
 	}
 	s.pc = append(s.pc, t)
 }
@@ -155,6 +169,14 @@ type FV struct {
 	extra    []string
 	used     map[string]bool
 	paramFirst []int
+	side     []*Term // type-invariant facts collected while evaluating specifications
+}
+
+func (fv *FV) flushSide(st *State) {
+	for _, t := range fv.side {
+		st.assume(t)
+	}
+	fv.side = nil
 }
 
 type execError struct{ msg string }
@@ -191,6 +213,7 @@ func (fv *FV) pos(p token.Pos) string {
 
 // oblige records a proof obligation on the current path.
 func (fv *FV) oblige(st *State, kind string, goal *Term, pos token.Pos) {
+	fv.flushSide(st)
 	name := fv.name + " / " + kind
 	o := &Obligation{Func: fv.name, Kind: kind, Name: name, Goal: goal, Pos: fv.pos(pos), Path: fv.pathNo}
 	if goal.IsTrue() {
@@ -557,8 +580,24 @@ func (fv *FV) globalAddr(g *ssa.Global) *Term {
 var typeIDs = map[string]int{}
 var typeIDNames = map[int]string{}
 
+var byteRe = regexp.MustCompile(`\bbyte\b`)
+var runeRe = regexp.MustCompile(`\brune\b`)
+
+func canonType(t types.Type) types.Type {
+	switch x := t.(type) {
+	case *types.Alias:
+		return canonType(types.Unalias(x))
+	case *types.Pointer:
+		return types.NewPointer(canonType(x.Elem()))
+	case *types.Slice:
+		return types.NewSlice(canonType(x.Elem()))
+	}
+	return t
+}
+
 func typeID(t types.Type) int {
-	k := t.String()
+	t = canonType(t)
+	k := runeRe.ReplaceAllString(byteRe.ReplaceAllString(t.String(), "uint8"), "int32")
 	if id, ok := typeIDs[k]; ok {
 		return id
 	}
@@ -754,26 +793,26 @@ func (fv *FV) nilCheck(st *State, ref *Term, in ssa.Instruction, pos token.Pos) 
 	st.assume(g)
 }
 
-// frameCheck emits the obligation that a write to addr is permitted by the modifies clause.
-func (fv *FV) frameCheck(st *State, addr *Term, isElem bool, in ssa.Instruction, pos token.Pos) {
+// frameAlts builds the disjunction of reasons why a write is permitted by the modifies clause.
+// For element writes addr is the array object and [lo, hi) the index range written.
+func (fv *FV) frameAlts(st *State, addr *Term, isElem bool, lo, hi *Term) *Term {
 	if st.modsAny {
-		return
+		return True
 	}
-	// syntactic: function-local allocation
 	root := addr
 	for root.Op == "emb" || root.Op == "elem" {
 		root = root.Args[0]
 	}
 	for _, l := range st.locals {
 		if root == l || sameTerm(root, l) {
-			return
+			return True
 		}
 	}
 	var alts []*Term
 	alts = append(alts, Ge(RootID(addr), st.frameWM))
 	for _, m := range st.mods {
 		switch m.kind {
-		case "cell":
+		case "cell", "gcell":
 			if !isElem {
 				alts = append(alts, Eq(addr, m.addr))
 			}
@@ -787,11 +826,17 @@ func (fv *FV) frameCheck(st *State, addr *Term, isElem bool, in ssa.Instruction,
 			}
 		case "mem":
 			if isElem {
-				alts = append(alts, Eq(addr, m.addr))
+				alts = append(alts, And(Eq(addr, m.addr), fv.idxLe(m.lo, lo), fv.idxLe(hi, m.hi)))
+			} else if addr.Op == "elem" {
+				alts = append(alts, And(Eq(addr.Args[0], m.addr), fv.idxLe(m.lo, addr.Args[1]), fv.idxLt(addr.Args[1], m.hi)))
 			}
 		}
 	}
-	g := Or(alts...)
+	return Or(alts...)
+}
+
+func (fv *FV) frameCheck(st *State, addr *Term, isElem bool, lo, hi *Term, in ssa.Instruction, pos token.Pos) {
+	g := fv.frameAlts(st, addr, isElem, lo, hi)
 	if g.IsTrue() {
 		return
 	}
@@ -806,17 +851,17 @@ func (fv *FV) storeAt(st *State, addr *Term, t types.Type, v Value, in ssa.Instr
 	switch addr.Op {
 	case "elem":
 		if fv.l.comps(t) != nil {
-			fv.frameCheck(st, addr.Args[0], true, in, pos)
+			fv.frameCheck(st, addr.Args[0], true, addr.Args[1], Add(addr.Args[1], fv.idx(1)), in, pos)
 			st.heap.storeElem(t, addr.Args[0], addr.Args[1], v)
 			return
 		}
-		fv.frameCheck(st, addr, false, in, pos)
+		fv.frameCheck(st, addr, false, nil, nil, in, pos)
 		st.heap.store(t, addr, v)
 	case "emb", "obj":
-		if _, isArr := t.Underlying().(*types.Array); isArr {
-			fv.frameCheck(st, addr, true, in, pos)
+		if at, isArr := t.Underlying().(*types.Array); isArr {
+			fv.frameCheck(st, addr, true, fv.idx(0), fv.idx(at.Len()), in, pos)
 		} else {
-			fv.frameCheck(st, addr, false, in, pos)
+			fv.frameCheck(st, addr, false, nil, nil, in, pos)
 		}
 		st.heap.store(t, addr, v)
 	default:
@@ -955,12 +1000,39 @@ func tdiv(x, y *Term) *Term {
 		Ite(Gt(y, IntLit(0)), Neg(EDiv(Neg(x), y)), EDiv(Neg(x), Neg(y))))
 }
 
+// divmod introduces quotient and remainder of Go's truncated division by a symbolic divisor as fresh
+// constants with their defining (nonlinear) equation plus linear consequences that spare the solver
+// nonlinear reasoning in the common cases (small quotients).
+func (fv *FV) divmod(st *State, x, y *Term) (q, r *Term) {
+	q = fv.fresh("quo", IntSort)
+	r = fv.fresh("rem", IntSort)
+	zero := IntLit(0)
+	absy := Ite(Ge(y, zero), y, Neg(y))
+	st.assume(Eq(x, Add(Mul(y, q), r)))
+	st.assume(Implies(Ge(x, zero), And(Le(zero, r), Lt(r, absy))))
+	st.assume(Implies(Le(x, zero), And(Le(r, zero), Lt(Neg(absy), r))))
+	// hints (consequences of the definition)
+	pos := And(Ge(x, zero), Gt(y, zero))
+	st.assume(Implies(And(pos, Lt(x, y)), And(Eq(q, zero), Eq(r, x))))
+	st.assume(Implies(And(pos, Le(y, x), Lt(x, Add(y, y))), And(Eq(q, IntLit(1)), Eq(r, Sub(x, y)))))
+	st.assume(Implies(pos, And(Le(zero, q), Le(q, x))))
+	return q, r
+}
+
 func (fv *FV) pow2(k *Term) *Term {
 	if k.Op == "int" && k.Int.IsInt64() && k.Int.Int64() >= 0 && k.Int.Int64() < 200 {
 		return IntBig(new(big.Int).Lsh(big.NewInt(1), uint(k.Int.Int64())))
 	}
 	fv.pow2Used = true
-	return App("pow2", IntSort, k)
+	p := App("pow2", IntSort, k)
+	// range facts about 2^k (sound consequences of the definition; they spare the solver case splits)
+	for _, b := range []int64{8, 16, 31, 32, 48, 62} {
+		if k.hasBound {
+			break
+		}
+		fv.side = append(fv.side, Implies(And(Le(IntLit(0), k), Le(k, IntLit(b))), And(Le(IntLit(1), p), Le(p, IntBig(new(big.Int).Lsh(big.NewInt(1), uint(b)))))))
+	}
+	return p
 }
 
 func pow2Axioms() []*Term {
@@ -971,7 +1043,14 @@ func pow2Axioms() []*Term {
 		as = append(as, App("ispow2", BoolSort, p))
 	}
 	x := BoundVar("x!p2", IntSort)
+	y := BoundVar("y!p2", IntSort)
 	as = append(as, Forall([]*Term{x}, Implies(App("ispow2", BoolSort, x), Gt(x, IntLit(0)))))
+	mono := Forall([]*Term{x, y}, Implies(And(Le(IntLit(0), x), Le(x, y)), Le(App("pow2", IntSort, x), App("pow2", IntSort, y))))
+	mono.Pats = [][]*Term{{App("pow2", IntSort, x), App("pow2", IntSort, y)}}
+	as = append(as, mono)
+	step := Forall([]*Term{x}, Implies(Le(IntLit(0), x), And(Ge(App("pow2", IntSort, x), IntLit(1)), App("ispow2", BoolSort, App("pow2", IntSort, x)))))
+	step.Pats = [][]*Term{{App("pow2", IntSort, x)}}
+	as = append(as, step)
 	return as
 }
 
@@ -1028,18 +1107,30 @@ func (fv *FV) binop(st *State, op token.Token, xv, yv Value, xt, yt, rt types.Ty
 		return arith(Sub(a, b))
 	case token.MUL:
 		return arith(Mul(a, b))
-	case token.QUO:
-		fv.oblige(st, fmt.Sprintf("div-zero #%d", fv.ordinal("div-zero", in)), Neq(b, IntLit(0)), pos)
-		if unsigned {
-			return Scalar{EDiv(a, b)}
+	case token.QUO, token.REM:
+		nz := Neq(b, IntLit(0))
+		fv.oblige(st, fmt.Sprintf("div-zero #%d", fv.ordinal("div-zero", in)), nz, pos)
+		st.assume(nz)
+		if b.Op == "int" && b.Int.Sign() > 0 {
+			if op == token.QUO {
+				if unsigned {
+					return Scalar{EDiv(a, b)}
+				}
+				return arith(tdiv(a, b))
+			}
+			if unsigned {
+				return Scalar{EMod(a, b)}
+			}
+			return Scalar{Sub(a, Mul(b, tdiv(a, b)))}
 		}
-		return arith(tdiv(a, b))
-	case token.REM:
-		fv.oblige(st, fmt.Sprintf("div-zero #%d", fv.ordinal("div-zero", in)), Neq(b, IntLit(0)), pos)
-		if unsigned {
-			return Scalar{EMod(a, b)}
+		q, r := fv.divmod(st, a, b)
+		if op == token.QUO {
+			if unsigned {
+				return Scalar{q}
+			}
+			return arith(q)
 		}
-		return Scalar{Sub(a, Mul(b, tdiv(a, b)))}
+		return Scalar{r}
 	case token.LSS:
 		return Scalar{Lt(a, b)}
 	case token.LEQ:
@@ -1055,7 +1146,10 @@ func (fv *FV) binop(st *State, op token.Token, xv, yv Value, xt, yt, rt types.Ty
 		w := int64(basicWidth(rt.Underlying().(*types.Basic)))
 		r := Mul(a, fv.pow2(b))
 		if b.Op != "int" {
-			r = Ite(Ge(b, IntLit(w)), IntLit(0), Mul(a, fv.pow2(b)))
+			exact := Mul(a, fv.pow2(b))
+			lo, hi := fv.intRange(rt)
+			fits := And(Lt(b, IntLit(w)), Le(IntBig(lo), exact), Le(exact, IntBig(hi)))
+			return Scalar{Ite(fits, exact, fv.wrap(Ite(Ge(b, IntLit(w)), IntLit(0), exact), rt))}
 		} else if b.Int.Int64() >= w {
 			r = IntLit(0)
 		}
